@@ -260,6 +260,10 @@ impl Split {
       }
     }
 
+    // the runestone on the wire carries its edicts sorted by rune ID, which is
+    // also how `Runestone::decipher` returns them
+    edicts.sort_by_key(|edict| edict.id);
+
     let runestone = Runestone {
       edicts,
       ..default()
